@@ -284,7 +284,8 @@ fn build_type(
     let (packed, alignment) = if *packed {
         (quote! { , packed }, quote! {})
     } else {
-        let alignment: syn::Index = alignment.into();
+        // not `syn::Index`: that is limited to u32 and panics beyond
+        let alignment = proc_macro2::Literal::usize_unsuffixed(alignment);
         (quote! {}, quote! { , align(#alignment) })
     };
 
